@@ -303,7 +303,8 @@ namespace Givaro {
     }
     uint64_t Integer::operator& (const uint64_t & a) const
     {   // AND
-        return mpz_get_ui((mpz_srcptr)&(gmp_rep)) & a;
+        const uint64_t low = mpz_get_ui((mpz_srcptr)&(gmp_rep)); // low limb of |*this|
+        return (priv_sign() < 0 ? -low : low) & a; // two's complement, as operator&(const Integer&)
     }
     Integer Integer::operator^ (const uint32_t& a) const
     {   // XOR
@@ -317,7 +318,8 @@ namespace Givaro {
     }
     uint32_t Integer::operator& (const uint32_t& a) const
     {   // AND
-        return (uint32_t) (mpz_get_ui((mpz_srcptr)&(gmp_rep)) & (uint64_t)a );
+        const uint64_t low = mpz_get_ui((mpz_srcptr)&(gmp_rep)); // low limb of |*this|
+        return (uint32_t) ((priv_sign() < 0 ? -low : low) & (uint64_t)a );
     }
     Integer Integer::operator~ () const
     {   // 1 complement
